@@ -103,12 +103,13 @@ def directory_deps(targets):
 def directory_rule(build_inputs, buildfile, env):
     mkdir_p = env.tool('mkdir_p')
     pattern = Pattern(os.path.join('%', dir_sentinel))
-    path = Function('patsubst', pattern, Pattern('%'), var('@'), quoted=True)
 
+    # Use the stem rather than `$(patsubst %/.dir,%,$@)`: text functions work
+    # word by word, so they'd squeeze runs of whitespace in the directory name.
     buildfile.rule(
         target=pattern,
         recipe=[
-            Silent(mkdir_p(path)),
+            Silent(mkdir_p(qvar('*'))),
             Silent(['touch', qvar('@')])
         ]
     )
